@@ -20,7 +20,11 @@ def body(chk):
     K = len(plans.CLASSES)
     variants = [dict(), dict(leader=dict(np=1, nch=1)), dict(leader=dict(np=136, nch=16)), dict(leader=dict(np=2, nch=8)),
                 dict(ctx=dict(designator="UPS-PROJECTION")), dict(ctx=dict(designator="LCC-PROJECTION")),
-                dict(ctx=dict(designator="MER-PROJECTION")), dict(level="1.1"), dict(level="3.1")]
+                dict(ctx=dict(designator="MER-PROJECTION")), dict(level="1.1"), dict(level="3.1"),
+                # record lengths other than the nominal ones (positions follow the DECLARED lengths): attitude records of 8192 / 32768 bytes and exactly
+                # as long as their points need, facility records of other sizes
+                dict(leader=dict(np=3, attlen=8192)), dict(leader=dict(np=5, attlen=32768)), dict(leader=dict(np=20, attlen=16 + 120 * 20)),
+                dict(leader=dict(np=136, attlen=16 + 120 * 136, nch=3)), dict(leader=dict(np=4, nch=3, f1=1000, f2=66, f3=5000, f4=90000))]
     for k in range(K):
         for vi, v in enumerate(variants):
             if chk.tier == "quick" and (k + vi) % 3 and vi not in (0,):
